@@ -1200,6 +1200,8 @@ class Stack(list):
             self.pop()
         sigcount = 0
         for pubkey in pubkeys:
+            if sigcount >= len(signatures):
+                break
             s = Signature.parse_bytes(signatures[sigcount])
             if s.verify(message, pubkey):
                 sigcount += 1
